@@ -13,6 +13,7 @@ mod c16;
 mod c17;
 mod c18;
 mod c18x;
+mod c18loop;
 mod c19;
 mod consts;
 mod core;
@@ -93,6 +94,7 @@ fn main() {
         "c17" => c17::run(&a),
         "c18" => c18::run(&a),
         "c18x" => c18x::run(&a),
+        "c18loop" => c18loop::run(&a),
         "c19" => c19::run(&a),
         "coremix" => coregen::run(&a, "CORE", "CoreMix", &["mix", "c07", "c03", "c04", "c05", "c08", "c09", "c11", "c13", "c20"]),
         "c03" => coregen::run(&a, "C03", "C03", &["c03"]),
